@@ -46,6 +46,28 @@ func buildCase(c *Case) (bt *built, err error, pan any) {
 		return &built{c: c, json: js}, e, nil
 	}
 	d := derive(c)
+	// loose groups exist in the model API only: combine the (root) plan units of their stops into a plan-all unit that
+	// may spread over vehicles
+	for _, g := range c.Loose {
+		seen := map[int]bool{}
+		var units []nextroute.ModelPlanUnit
+		for _, si := range g {
+			if si >= len(model.Stops()) || !model.Stops()[si].HasPlanStopsUnit() {
+				continue
+			}
+			mu := nextroute.ModelPlanUnit(model.Stops()[si].PlanStopsUnit())
+			if _, member := mu.PlanUnitsUnit(); member || seen[mu.Index()] {
+				continue
+			}
+			seen[mu.Index()] = true
+			units = append(units, mu)
+		}
+		if len(units) > 1 {
+			if _, e := model.NewPlanAllPlanUnits(false, units...); e != nil {
+				return &built{c: c, json: js}, e, nil
+			}
+		}
+	}
 	return &built{c: c, d: d, model: model, b: bind(d, model), json: js}, nil, nil
 }
 
